@@ -25,6 +25,9 @@ type SetupServerController struct {
 	session  *SetupServerSession
 	step     PairStepType
 	database db.Database
+
+	// started is true when the session was used by an exchange; the next exchange gets a new one
+	started bool
 }
 
 // NewSetupServerController returns a new pair setup controller.
@@ -96,6 +99,17 @@ func (setup *SetupServerController) Handle(in util.Container) (out util.Containe
 // - B: server public key
 // - s: salt
 func (setup *SetupServerController) handlePairStart(in util.Container) (util.Container, error) {
+	// Every exchange has its own SRP session (salt and key pair). With the session
+	// of an earlier exchange, the messages of that exchange would be valid again.
+	if setup.started {
+		session, err := NewSetupServerSession(setup.device.Name(), setup.device.Pin())
+		if err != nil {
+			return nil, err
+		}
+		setup.session = session
+	}
+	setup.started = true
+
 	out := util.NewTLV8Container()
 	setup.step = PairStepStartResponse
 
@@ -264,5 +278,4 @@ func (setup *SetupServerController) handleKeyExchange(in util.Container) (util.C
 
 func (setup *SetupServerController) reset() {
 	setup.step = PairStepWaiting
-	// TODO: reset session
 }
